@@ -46,6 +46,8 @@ func (p *Provider[A]) SetAmmos(ammos []A) {
 func (p *Provider[A]) Run(ctx context.Context, deps core.ProviderDeps) error {
 	const op = "scenario.Provider.Run"
 	p.Deps = deps
+	// Closed sink is the end of ammo for instances.
+	defer close(p.sink)
 
 	length := uint(len(p.ammos))
 	if length == 0 {
@@ -64,10 +66,10 @@ func (p *Provider[A]) Run(ctx context.Context, deps core.ProviderDeps) error {
 		i := ammoNum % length
 		passNum = ammoNum / length
 		if p.cfg.Passes != 0 && passNum >= p.cfg.Passes {
-			return decoders.ErrPassLimit
+			return nil // Passes limit is the normal end of ammo.
 		}
 		if p.cfg.Limit != 0 && ammoNum >= p.cfg.Limit {
-			return decoders.ErrAmmoLimit
+			return nil // Ammo limit is the normal end of ammo.
 		}
 		ammoNum++
 		ammo := p.ammos[i]
